@@ -412,13 +412,13 @@ func C16(ctx *core.Ctx) error {
 	hprof := fmt.Sprintf("{ [%s, arity |-> {1}, max |-> 2, flags |-> TRUE], [%s, arity |-> {1}, max |-> 3, flags |-> FALSE], [%s, arity |-> {1, 2}, max |-> 2, flags |-> FALSE] }", hv, hv, hv)
 	if ctx.Thorough() {
 		hv3 := "bv |-> {<<1>>, <<2>>, <<1, 2>>}, iv |-> {1, 2, 258}, tv |-> {<<1>>, <<2>>, <<1, 2>>}"
-		hprof = fmt.Sprintf("{ [%s, arity |-> {1, 2}, max |-> 2, flags |-> TRUE], [%s, arity |-> {1}, max |-> 4, flags |-> FALSE], [%s, arity |-> {1, 2}, max |-> 3, flags |-> FALSE], [%s, arity |-> {1}, max |-> 3, flags |-> TRUE] }", hv, hv, hv, hv3)
+		hprof = fmt.Sprintf("{ [%s, arity |-> {1, 2}, max |-> 2, flags |-> TRUE], [%s, arity |-> {1}, max |-> 4, flags |-> FALSE], [%s, arity |-> {1, 2}, max |-> 3, flags |-> FALSE], [%s, arity |-> {1}, max |-> 3, flags |-> FALSE], [%s, arity |-> {1}, max |-> 2, flags |-> TRUE] }", hv, hv, hv, hv3, hv3)
 	}
 	hhWrapper := "HProfilesVal == " + hprof + "\n" +
 		"ASSUME \\A p \\in HProfilesVal : \\A c \\in CallsOf(p) : PrintT(<<\"CALL\", ToJson([fn |-> c.fn, tag |-> c.tag, ins |-> c.ins, f |-> Frame(InBytes(c)), tf |-> Frame(<<c.tag>>)])>>)\n" +
-		"ASSUME \\A d \\in {\"tag-by-reference\", \"input-by-reference\", \"result-shared\"} : PrintT(<<\"HWITNESS\", d, ToJson(Witness2(d))>>)\n"
+		"ASSUME \\A d \\in StatefulDesigns : PrintT(<<\"HWITNESS\", d, ToJson(Witness2(d))>>)\n"
 	jHHist := hfJobOn("HashHistory", "hash_histories", ctx.Pick(1, 3), c16HF{alpha: []int{1}, maxCount: 1, maxLen: 1, kind: "bytes", spec: "HSpec",
-		extra: "  Design = \"pure\"\n  HProfiles <- HProfilesVal\n", invs: "HistFunctional HistInjective EmitHist"}, hhWrapper)
+		extra: "  Design = \"pure\"\n  HProfiles <- HProfilesVal\n", invs: "HistFunctional HistInjective HistHeld EmitHist"}, hhWrapper)
 	if ctx.Thorough() {
 		for _, v := range c16Ambiguous {
 			j := hfJob("view_"+strings.ReplaceAll(v, "+", "_"), 1, c16HF{alpha: alphaQuick, maxCount: 3, maxLen: viewLen, kind: "bytes", variants: []string{v}, invs: "TypeOK", view: true}, "")
@@ -615,8 +615,8 @@ func C16(ctx *core.Ctx) error {
 	}
 	hw := 0
 	c16Tagged(jHHist.res.Output, "HWITNESS", func(string) error { hw++; return nil })
-	if hw != 3 {
-		return core.Inconcl("self-test: TLC found a distinguishing history for %d of the 3 designs that keep state between calls", hw)
+	if hw != 4 {
+		return core.Inconcl("self-test: TLC found a distinguishing history for %d of the 4 designs that keep state between calls", hw)
 	}
 	if err := c16HashHistories(jHHist.res.Output, jHHist.res.Distinct, hs, cov, add); err != nil {
 		return err
